@@ -131,4 +131,11 @@ def r3_parser_binding(ctx: Ctx) -> None:
     ctx.count("parser_facts", 8)
 
 
-RULES = [r1_if, r2_for, r3_parser_binding]
+
+def rb_binding_agreement(ctx: Ctx) -> None:
+    from ..ownership import binding_agreement
+
+    binding_agreement(ctx)
+
+
+RULES = [r1_if, r2_for, r3_parser_binding, rb_binding_agreement]
